@@ -251,6 +251,9 @@ func (r *Run) Violation(key, desc string, replay any) {
 	path := filepath.Join(dir, hex.EncodeToString(h[:8])+".json")
 	_ = os.WriteFile(path, raw, 0o644)
 	r.viol[key] = &violation{Key: key, Desc: desc, Replay: path}
+	if len(r.viol) <= 5 {
+		r.writeEvidence(true)
+	}
 	if len(r.viol) <= 25 {
 		fmt.Printf("VIOLATION property=%s replay=%s\n", r.Prop, path)
 		d := desc
@@ -274,6 +277,37 @@ func (r *Run) alreadyReported(key string) bool {
 func (r *Run) Finish() {
 	r.mu.Lock()
 	defer r.mu.Unlock()
+	wall := r.writeEvidence(false)
+	keys := make([]string, 0, len(r.Counters))
+	for k := range r.Counters {
+		keys = append(keys, k)
+	}
+	sort.Strings(keys)
+	fmt.Printf("%s %s seed=%d: evaluations=%d distinct_nontrivial=%d violations=%d(keys) known_hit=%d wall=%.1fs\n",
+		r.Prop, r.Tier, r.Seed, r.Evaluations, r.nDistinct(), len(r.viol), len(r.knownHit), wall)
+	for _, k := range keys {
+		fmt.Printf("  %s=%d\n", k, r.Counters[k])
+	}
+	if len(r.viol) > 0 {
+		os.Exit(1)
+	}
+	if len(r.inconcl) > 0 {
+		for _, w := range r.inconcl {
+			fmt.Printf("INCONCLUSIVE %s\n", w)
+		}
+		os.Exit(2)
+	}
+	if r.Evaluations == 0 || r.nDistinct() < 2 {
+		fmt.Printf("INCONCLUSIVE nothing-observed evaluations=%d distinct=%d\n", r.Evaluations, r.nDistinct())
+		os.Exit(2)
+	}
+	os.Exit(0)
+}
+
+// writeEvidence writes evidence/<id>.json (caller holds r.mu). It is also called when a violation is first
+// observed, so that a monitored crash that kills the process later (fatal error: stack overflow, …) still
+// leaves evidence of what was seen.
+func (r *Run) writeEvidence(partial bool) float64 {
 	wall := time.Since(r.start).Seconds()
 	cov := map[string]any{
 		"evaluations":         r.Evaluations,
@@ -301,35 +335,15 @@ func (r *Run) Finish() {
 	if r.Assumptions == nil {
 		ev["assumptions"] = []string{}
 	}
+	if partial {
+		cov["partial"] = "written when a violation was observed, before the run ended"
+	}
 	raw, _ := json.MarshalIndent(ev, "", " ")
 	if r.replayOnly == "" {
 		_ = os.MkdirAll(filepath.Join(verifDir(), "evidence"), 0o755)
 		_ = os.WriteFile(filepath.Join(verifDir(), "evidence", r.Prop+".json"), raw, 0o644)
 	}
-	keys := make([]string, 0, len(r.Counters))
-	for k := range r.Counters {
-		keys = append(keys, k)
-	}
-	sort.Strings(keys)
-	fmt.Printf("%s %s seed=%d: evaluations=%d distinct_nontrivial=%d violations=%d(keys) known_hit=%d wall=%.1fs\n",
-		r.Prop, r.Tier, r.Seed, r.Evaluations, r.nDistinct(), len(r.viol), len(r.knownHit), wall)
-	for _, k := range keys {
-		fmt.Printf("  %s=%d\n", k, r.Counters[k])
-	}
-	if len(r.viol) > 0 {
-		os.Exit(1)
-	}
-	if len(r.inconcl) > 0 {
-		for _, w := range r.inconcl {
-			fmt.Printf("INCONCLUSIVE %s\n", w)
-		}
-		os.Exit(2)
-	}
-	if r.Evaluations == 0 || r.nDistinct() < 2 {
-		fmt.Printf("INCONCLUSIVE nothing-observed evaluations=%d distinct=%d\n", r.Evaluations, r.nDistinct())
-		os.Exit(2)
-	}
-	os.Exit(0)
+	return wall
 }
 
 // ---------------------------------------------------------------------------------------
